@@ -114,6 +114,11 @@ def run(prog, check):
     # the moved tuple is the loop item (name and its current equation)
     tv = target_names(loop.target)
     moved = arg_of(apps[0].ast, 'append', 'Decoration') if apps else ''
+    if moved and moved.isidentifier():
+        # a temporary bound once to the item (`entry = (var, eqn)`) is the item
+        d_ = single_assign_subst(deco_pass.node).get(moved)
+        if d_ is not None:
+            moved = unparse(d_)
     okt = (moved.replace(' ', '') == '(%s)' % ','.join(tv).replace(' ', '') or
            (isinstance(loop.target, ast.Name) and moved == loop.target.id)) and fill_item_ok
     if decide_loop is not loop:
@@ -217,6 +222,12 @@ def run(prog, check):
             return False
     for c in calls:
         tgt, rep = (c.args + [None, None, None])[1:3]
+        # keyword spelling of the same call: replace_token(s, target=..., replacement=...)
+        for kw_ in c.keywords:
+            if kw_.arg == 'target' and tgt is None:
+                tgt = kw_.value
+            if kw_.arg == 'replacement' and rep is None:
+                rep = kw_.value
         tgt_r = resolve_expr(tgt, asub) if tgt is not None else None
         tgt_ok = isinstance(tgt_r, ast.Name) and tgt_r.id == otv[0]
         rep_ok = is_cleaned_def(rep)
